@@ -56,7 +56,7 @@ def alarm(seconds):
 
 
 def strip_lean_comments(text):
-    """Remove -- line comments and (nested) /- -/ block comments and string literals' contents are kept."""
+    """Remove -- line comments, (nested) /- -/ block comments and the contents of string literals (data, not proof text)."""
     out, i, depth, n = [], 0, 0, len(text)
     while i < n:
         if text.startswith("/-", i):
@@ -72,6 +72,21 @@ def strip_lean_comments(text):
         elif text.startswith("--", i):
             while i < n and text[i] != "\n":
                 i += 1
+        elif text.startswith("'\"'", i) or text.startswith("'\\\"'", i):     # the character literals '"' and '\"'
+            k = 3 if text.startswith("'\"'", i) else 4
+            out.append(text[i:i + k])
+            i += k
+        elif text[i] == '"':                      # a string literal: keep the quotes and the line structure, blank the contents
+            out.append('"')
+            i += 1
+            while i < n and text[i] != '"':
+                if text[i] == "\\":
+                    i += 1
+                if i < n and text[i] == "\n":
+                    out.append("\n")
+                i += 1
+            out.append('"')
+            i += 1
         else:
             out.append(text[i])
             i += 1
